@@ -611,7 +611,7 @@ impl Transformer {
     ) -> Result<()> {
         let mut new_svg_attrs = AttrMap::new();
         let mut orig_svg_attrs = HashMap::new();
-        if let OutputEvent::Start(orig_svg) = first_svg {
+        if let OutputEvent::Start(orig_svg) | OutputEvent::Empty(orig_svg) = first_svg {
             new_svg_attrs = orig_svg.attrs.clone();
             orig_svg_attrs = orig_svg.get_attrs();
         }
@@ -766,8 +766,16 @@ impl Transformer {
         let mut has_svg_element = false;
         if let (pre_svg, Some(first_svg), remain) = events.partition("svg") {
             pre_svg.write_to(writer)?;
+            // write_root_svg always writes a start tag, so an empty root element
+            // (`<svg/>`) needs a matching end tag (after any generated styles).
+            let empty_root = matches!(first_svg, OutputEvent::Empty(_));
             self.write_root_svg(first_svg, bbox, writer)?;
             events = remain;
+            if empty_root {
+                let mut closed = OutputList::from(vec![OutputEvent::End("svg".to_owned())]);
+                closed.extend(&events);
+                events = closed;
+            }
             has_svg_element = true;
         }
 
